@@ -80,10 +80,17 @@ def main():
                                            optional_features=None)
         seen = []
 
+        boom = rnd.random() < 0.4
+
         def thunk(scope):
           seen.append((scope, [c.status for c in ag_ctx.stacks.control_status[len(base):]]))
+          if boom:
+            raise KeyError('thunk')           # the scope must be left (and the stack restored) on this exit too
           return 'ret'
-        r = function_wrappers.with_function_scope(thunk, 'sc', opts)
+        try:
+          r = function_wrappers.with_function_scope(thunk, 'sc', opts)
+        except KeyError:
+          r = 'ret' if boom else 'unexpected KeyError'
         now = ag_ctx.stacks.control_status
         if not (r == 'ret' and len(seen) == 1 and isinstance(seen[0][0], function_wrappers.FunctionScope)
                 and seen[0][1] == ([S.ENABLED] if opts.user_requested else [])
